@@ -3,6 +3,7 @@ CONSTANTS
  Deliveries <- DeliveriesAll
  FrontEnds <- FrontEndsAll
  WtStates <- WtAll
+ Exts <- ExtsAll
  Emit = TRUE
 SPECIFICATION Spec
 INVARIANT NoPointerToPointer
